@@ -15,6 +15,8 @@ structure RegInv2 (items : List (Key × Item)) (P : List (String × Decl)) : Pro
     ∀ v, v ∈ vs ↔ ∃ r, (ns, Decl.route r) ∈ P ∧ r.name = n ∧ r.version = v
   routeFound : ∀ ns r, (ns, Decl.route r) ∈ P → ∃ vs, items.lookup (ns, r.name) = some (.routes vs)
   nobuiltin : ∀ ns n, (items.lookup (ns, n)).isSome → TyKind.ofName? n = none
+  annotFound : ∀ ns n k, (ns, Decl.annot n k) ∈ P → items.lookup (ns, n) = some (.annot k)
+  annotMem : ∀ ns n k, items.lookup (ns, n) = some (.annot k) → (ns, Decl.annot n k) ∈ P
 
 /-- the struct / union declaration an environment entry holds -/
 def shapeOf : Item → Option TypeDecl
@@ -25,12 +27,20 @@ def declShape : Decl → Option TypeDecl
   | .type d => some d
   | _ => none
 
+def annShape : Item → Option AnnotKind
+  | .annot k => some k
+  | _ => none
+
+def annDeclShape : Decl → Option AnnotKind
+  | .annot _ k => some k
+  | _ => none
+
 inductive Shape (items : List (Key × Item)) (ns : String) (d : Decl) : List (Key × Item) → Prop
   | skip : anyName d = none → Shape items ns d items
   | fresh (name : String) (i : Item) : anyName d = some name → items.lookup (ns, name) = none →
       TyKind.ofName? name = none →
       (∀ r, d = .route r → i = .routes [r.version]) → ((∀ r, d ≠ .route r) → ∀ vs, i ≠ .routes vs) →
-      shapeOf i = declShape d →
+      shapeOf i = declShape d → annShape i = annDeclShape d →
       Shape items ns d (((ns, name), i) :: items)
   | more (r : RouteDecl) (vs : List Int) : d = .route r → items.lookup (ns, r.name) = some (.routes vs) →
       ¬ r.version ∈ vs → Shape items ns d (((ns, r.name), .routes (r.version :: vs)) :: items)
@@ -45,20 +55,21 @@ theorem lookupSym_none_builtin {items : List (Key × Item)} {ns name} (h : looku
     | some k => simp [hk] at h
 
 theorem bindNew_shape {st ns name i c st'} {d : Decl} (h : bindNew st ns name i c = .ok st')
-    (hn : anyName d = some name) (hr : ∀ r, d ≠ .route r) (hi : ∀ vs, i ≠ .routes vs) (hsh : shapeOf i = declShape d) :
+    (hn : anyName d = some name) (hr : ∀ r, d ≠ .route r) (hi : ∀ vs, i ≠ .routes vs) (hsh : shapeOf i = declShape d)
+    (hsa : annShape i = annDeclShape d) :
     Shape st.items ns d st'.items := by
   unfold bindNew at h
   split at h
   · cases h
   · rename_i hl
     rw [(checkCanon_items h).1]
-    exact .fresh name i hn (lookupSym_none hl) (lookupSym_none_builtin hl) (fun r hd => absurd hd (hr r)) (fun _ => hi) hsh
+    exact .fresh name i hn (lookupSym_none hl) (lookupSym_none_builtin hl) (fun r hd => absurd hd (hr r)) (fun _ => hi) hsh hsa
 
 theorem regDecl_shape {st ns d st'} (h : regDecl st ns d = .ok st') : Shape st.items ns d st'.items := by
   cases d with
-  | type td => exact bindNew_shape h rfl (fun r hd => by cases hd) (fun vs hv => by cases hv) rfl
-  | «alias» n r => exact bindNew_shape h rfl (fun r hd => by cases hd) (fun vs hv => by cases hv) rfl
-  | annot n => exact bindNew_shape h rfl (fun r hd => by cases hd) (fun vs hv => by cases hv) rfl
+  | type td => exact bindNew_shape h rfl (fun r hd => by cases hd) (fun vs hv => by cases hv) rfl rfl
+  | «alias» n r => exact bindNew_shape h rfl (fun r hd => by cases hd) (fun vs hv => by cases hv) rfl rfl
+  | annot n ak => exact bindNew_shape h rfl (fun r hd => by cases hd) (fun vs hv => by cases hv) rfl rfl
   | annotType n =>
     simp only [regDecl] at h
     split at h
@@ -67,12 +78,16 @@ theorem regDecl_shape {st ns d st'} (h : regDecl st ns d = .ok st') : Shape st.i
       split at h
       · cases h
       · rw [(checkCanon_items h).1]
-        exact .fresh n .other rfl (lookupSym_none hl) (lookupSym_none_builtin hl) (fun r hd => by cases hd) (fun _ vs hv => by cases hv) rfl
+        exact .fresh n .other rfl (lookupSym_none hl) (lookupSym_none_builtin hl) (fun r hd => by cases hd) (fun _ vs hv => by cases hv) rfl rfl
   | imp t =>
     simp only [regDecl] at h
     cases h
     exact .skip rfl
   | patch q =>
+    simp only [regDecl] at h
+    cases h
+    exact .skip rfl
+  | aliasAnnots n as =>
     simp only [regDecl] at h
     cases h
     exact .skip rfl
@@ -94,7 +109,7 @@ theorem regDecl_shape {st ns d st'} (h : regDecl st ns d = .ok st') : Shape st.i
     · rename_i hl
       rw [(checkCanon_items h).1]
       exact .fresh r.name (.routes [r.version]) rfl (lookupSym_none hl) (lookupSym_none_builtin hl) (fun r' hd => by cases hd; rfl)
-        (fun hne => absurd rfl (hne r)) rfl
+        (fun hne => absurd rfl (hne r)) rfl rfl
 
 theorem lookup_cons_ne {α β} [BEq α] [LawfulBEq α] {l : List (α × β)} {k k' : α} {v : β} (h : k' ≠ k) :
     ((k, v) :: l).lookup k' = l.lookup k' := by
@@ -110,7 +125,17 @@ theorem RegInv2.step {items P ns d items'} (hI : RegInv2 items P) (hs : Shape it
     RegInv2 items' (P ++ [(ns, d)]) := by
   cases hs with
   | skip hn =>
-    refine ⟨?_, ?_, ?_, hI.nobuiltin⟩
+    refine ⟨?_, ?_, ?_, hI.nobuiltin, ?_, ?_⟩
+    rotate_left 3
+    · intro ns' n k hm
+      rw [List.mem_append] at hm
+      rcases hm with hm | hm
+      · exact hI.annotFound ns' n k hm
+      · simp only [List.mem_singleton, Prod.mk.injEq] at hm
+        obtain ⟨_, rfl⟩ := hm
+        simp [anyName] at hn
+    · intro ns' n k hl
+      exact List.mem_append_left _ (hI.annotMem ns' n k hl)
     · intro ns' n
       rw [hI.anyFound]
       constructor
@@ -140,17 +165,47 @@ theorem RegInv2.step {items P ns d items'} (hI : RegInv2 items P) (hs : Shape it
       · simp only [List.mem_singleton, Prod.mk.injEq] at hm
         obtain ⟨_, rfl⟩ := hm
         simp [anyName] at hn
-  | fresh name i hn hl hnb hri hnr _ =>
+  | fresh name i hn hl hnb hri hnr _ hsa =>
     have hnoP : ∀ d', (ns, d') ∈ P → anyName d' ≠ some name := by
       intro d' hm hd'
       have := (hI.anyFound ns name).mpr ⟨d', hm, hd'⟩
       rw [hl] at this; cases this
-    refine ⟨?_, ?_, ?_, ?_⟩
+    refine ⟨?_, ?_, ?_, ?_, ?_, ?_⟩
     rotate_left 3
     · intro ns' n hs
       by_cases hk : (ns', n) = (ns, name)
       · cases hk; exact hnb
       · rw [lookup_cons_ne hk] at hs; exact hI.nobuiltin ns' n hs
+    · intro ns' n k hm
+      rw [List.mem_append] at hm
+      rcases hm with hm | hm
+      · have hk : (ns', n) ≠ (ns, name) := by
+          intro he; cases he
+          exact hnoP _ hm rfl
+        rw [lookup_cons_ne hk]
+        exact hI.annotFound ns' n k hm
+      · simp only [List.mem_singleton, Prod.mk.injEq] at hm
+        obtain ⟨rfl, rfl⟩ := hm
+        simp only [anyName, Option.some.injEq] at hn
+        subst hn
+        rw [lookup_cons_self]
+        simp only [annDeclShape] at hsa
+        cases i <;> simp [annShape] at hsa
+        rw [hsa]
+    · intro ns' n k hlk
+      by_cases hk : (ns', n) = (ns, name)
+      · cases hk
+        rw [lookup_cons_self] at hlk
+        cases hlk
+        simp only [annShape] at hsa
+        cases d <;> simp [annDeclShape] at hsa
+        rename_i n' k'
+        subst hsa
+        simp only [anyName, Option.some.injEq] at hn
+        subst hn
+        simp
+      · rw [lookup_cons_ne hk] at hlk
+        exact List.mem_append_left _ (hI.annotMem ns' n k hlk)
     · intro ns' n
       by_cases hk : (ns', n) = (ns, name)
       · cases hk
@@ -178,7 +233,7 @@ theorem RegInv2.step {items P ns d items'} (hI : RegInv2 items P) (hs : Shape it
         have hdr : ∃ r, d = .route r := by
           cases d with
           | route r => exact ⟨r, rfl⟩
-          | type _ | «alias» _ _ | annot _ | annotType _ | imp _ | patch _ =>
+          | type _ | «alias» _ _ | annot _ _ | annotType _ | imp _ | patch _ | aliasAnnots _ _ =>
             exact absurd rfl (hnr (fun r hd => by cases hd) vs)
         obtain ⟨r, rfl⟩ := hdr
         have hi := hri r rfl
@@ -222,12 +277,31 @@ theorem RegInv2.step {items P ns d items'} (hI : RegInv2 items P) (hs : Shape it
         exact ⟨[r.version], by rw [lookup_cons_self, hri r rfl]⟩
   | more r vs hd hl hv =>
     subst hd
-    refine ⟨?_, ?_, ?_, ?_⟩
+    refine ⟨?_, ?_, ?_, ?_, ?_, ?_⟩
     rotate_left 3
     · intro ns' n hs
       by_cases hk : (ns', n) = (ns, r.name)
       · cases hk; exact hI.nobuiltin ns r.name (by rw [hl]; rfl)
       · rw [lookup_cons_ne hk] at hs; exact hI.nobuiltin ns' n hs
+    · intro ns' n k hm
+      rw [List.mem_append] at hm
+      rcases hm with hm | hm
+      · have hk : (ns', n) ≠ (ns, r.name) := by
+          intro he; cases he
+          have := hI.annotFound ns r.name k hm
+          rw [hl] at this; cases this
+        rw [lookup_cons_ne hk]
+        exact hI.annotFound ns' n k hm
+      · simp only [List.mem_singleton, Prod.mk.injEq] at hm
+        obtain ⟨_, hd⟩ := hm
+        cases hd
+    · intro ns' n k hlk
+      by_cases hk : (ns', n) = (ns, r.name)
+      · cases hk
+        rw [lookup_cons_self] at hlk
+        cases hlk
+      · rw [lookup_cons_ne hk] at hlk
+        exact List.mem_append_left _ (hI.annotMem ns' n k hlk)
     · intro ns' n
       by_cases hk : (ns', n) = (ns, r.name)
       · cases hk
@@ -319,7 +393,7 @@ theorem buildEnv_inv2 {fs E} (h : buildEnv fs = .ok E) : RegInv2 E.items (pairs 
     split at h
     · cases h
     · cases h
-      have := regFiles_inv2 (P := []) ⟨by simp, by simp, by simp, by simp⟩ hst
+      have := regFiles_inv2 (P := []) ⟨by simp, by simp, by simp, by simp, by simp, by simp⟩ hst
       simpa using this
 
 /-! ## the environment, entry by entry, is the list of named definitions -/
@@ -335,7 +409,7 @@ theorem RegInv3.step {items P ns d items'} (hI : RegInv3 items P) (hs : Shape it
   unfold RegInv3 at hI ⊢
   cases hs with
   | skip hn => simp [List.filterMap_append, namedEntry, hn, hI]
-  | fresh name i hn _ _ _ _ hsh =>
+  | fresh name i hn _ _ _ _ hsh _ =>
     simp [List.filterMap_append, namedEntry, hn, hI, hsh]
   | more r vs hd _ _ =>
     subst hd
@@ -405,6 +479,7 @@ theorem EnvOK.kindOf_eq {E fs} (hE : EnvOK E fs) (k : Key) : kindOf E k = kindS 
       rw [hf]
     | routes vs => rw [hE.findDef_other (ns := k.1) (n := k.2) hl (Or.inl ⟨vs, rfl⟩)]
     | other => rw [hE.findDef_other (ns := k.1) (n := k.2) hl (Or.inr rfl)]
+    | annot ak => rw [hE.findDef_annot (ns := k.1) (n := k.2) hl]
 
 theorem EnvOK2.known_eq {E fs} (hE : EnvOK2 E fs) (ns name : String) :
     (E.lookup ns name).isSome = known fs ns name := by
@@ -479,7 +554,7 @@ theorem EnvOK2.deprecated_eq {E fs} (hE : EnvOK2 E fs) (ns : String) (dep : Opti
               exact fun h => hc (hv.mpr h)
             rw [this, hno]
             rfl
-        | type _ | «alias» _ | other =>
+        | type _ | «alias» _ | other | annot _ =>
           have hno : (routeDecls (declsOf fs ns)).any (fun r => r.name == name && r.version == v) = false := by
             rw [Bool.eq_false_iff, ne_eq, hany]
             rintro ⟨r, hm, h1, _⟩
